@@ -4,6 +4,7 @@ import WS.Props.G2.FrameDefs
 import WS.Props.G2.ReadDefs
 import WS.Props.G2.WriteDefs
 import WS.Props.G2.NetDefs
+import WS.Props.G2.CloseSeqDefs
 /-
   Counterexample search for the obligations of WS/Props/G2/*: run by bin/check when one of those modules does not
   build, to name the valuation at which the regenerated decision skeleton and the decision table differ (the replay of
@@ -119,4 +120,31 @@ def main : IO Unit := do
   report "wsjson_read_matches" ((bvs 3).filterMap fun v =>
     match v with
     | [a, b, c] => some (sh ["readerError", "copyError", "unmarshalError"] v, run (envJsonRead a b c) g_wsjson_c_read, jsonReadExpected a b c)
+    | _ => none)
+  report "msgReader_setFrame_matches" [("(no atoms)", run (mkEnv []) g_c_msgReader_setFrame, setFrameExpected)]
+  report "headerTokens_matches" (bools.flatMap fun a => bools.map fun b =>
+    (s!"moreHeaderLines={a} moreElements={b}", run (envTokens a b) g_c_headerTokens, tokensExpected a b))
+  report "msgWriter_Close_matches" ((bvs 6).filterMap fun v =>
+    match v with
+    | [a, b, c, d, e, f] => some (sh ["lockError", "writerClosed", "flate", "flushError", "frameError", "contextTakeover"] v,
+        run (envMwClose a b c d e f) g_c_msgWriter_Close, mwCloseExpected a b c d e f)
+    | _ => none)
+  report "Conn_Close_matches" ((bvs 5).filterMap fun v =>
+    match v with
+    | [a, b, c, d, e] => some (sh ["firstCloser", "joinError", "handshakeError", "closeError", "joinError2"] v,
+        run (envClose a b c d e) g_c_Conn_Close, closeExpected a b c d e)
+    | _ => none)
+  report "Conn_CloseNow_matches" ((bvs 4).filterMap fun v =>
+    match v with
+    | [a, b, d, e] => some (sh ["firstCloser", "joinError", "closeError", "joinError2"] v,
+        run (envClose a b false d e) g_c_Conn_CloseNow, closeNowExpected a b d e)
+    | _ => none)
+  report "closeHandshake_matches" ((bvs 3).filterMap fun v =>
+    match v with
+    | [a, b, c] => some (sh ["writeCloseError", "waitError", "otherStatus"] v, run (envHandshake a b c) g_c_Conn_closeHandshake, handshakeExpected a b c)
+    | _ => none)
+  report "writeClose_matches" ((bvs 3).flatMap fun v => [(1000 : Int), 1005, 1006, 4000].filterMap fun code =>
+    match v with
+    | [a, b, c] => some (sh ["marshalError", "writeError", "connectionClosed"] v ++ s!" code={code}",
+        run (envWriteClose code a b c) g_c_Conn_writeClose, writeCloseExpected code a b c)
     | _ => none)
